@@ -321,7 +321,7 @@ class FlatSet : private Compare {
 
 #ifdef AMC_CXX17
   node_type extract(const_iterator position) {
-    node_type nt(std::move(*const_cast<miterator>(position)), get_allocator());
+    node_type nt(std::move(*(mbegin() + (position - begin()))), get_allocator());
     _sortedVector.erase(position);
     return nt;
   }
